@@ -620,7 +620,7 @@ def corpus():
 def exhaustive_small():
     c = []
     num = ["pre", 25, -1, -9, "pre"]
-    saves = [["mode", "ALL"], ["mode", "NONE"], ["sig", "out"], ["sigs", ["out"]], ["sigs", ["out", "inp", "n1"]],
+    saves = [["mode", "ALL"], ["mode", "NONE"], ["mode", "SELECTED"], ["sig", "out"], ["sigs", ["out"]], ["sigs", ["out", "inp", "n1"]],
              ["name", "out"], ["names", []], ["names", ["a"]], ["names", ["a", "b", "c"]]]
     sweeps = [["lin", N1, num, num], ["log", N1, num, 10], ["pts", []], ["pts", [num]], ["pts", [N1, num, N11P]]]
     for st in ("proc", "add", "class"):
@@ -746,7 +746,7 @@ def report(run, stream, bad, cases, outs):
             continue
         seen.add(sig)
         n += 1
-        if n > 4:
+        if n > 6:
             break
         run.violation(f"C17:{canon(cases[i])}",
                       f"exported SimInput is not a complete and faithful image of the Sim (stream {stream}): "
@@ -876,8 +876,8 @@ def run(run, tier, seed, replay=None):
     run.sample(dict(stream="malformed", case=cs[0], impl=outs[0]))
     run.coverage["traces_validated_against_impl"] = all_cases
     run.coverage["float_double_rounding_cases"] = total_round
-    run.coverage["float_double_rounding_note"] = ("float fields equal float(value) as computed by the tree under test; this many distinct values per case "
-                                                  "are not the double nearest to the exact decimal (Prefixed.__float__, property C14) - counted, not alarmed")
+    run.coverage["float_double_rounding_note"] = ("number of float() results of the tree under test (per case, distinct values) that are not the double "
+                                                  "nearest to the exact decimal; a float field carrying such a value is a violation of the property")
 
 
 def mal_case(seed, k):
